@@ -1,18 +1,24 @@
 #!/bin/bash
-# bin/build.sh <variant> — build one explorer binary from /repo's current working tree.
-# variants: plain | sched (vinstr overlay + -race) | maprt (runtime map-order seam) | cut (loop budget overlay)
-#           | blk6 (marchingSectionSize scaled to 6)
+# bin/build.sh <variant> — build one explorer binary from the repository's current working tree
+# (/repo, or $VERIF_REPO for scratch worktrees used when testing mutants).
+# variants: plain, plus bin/build-<variant>.sh for overlay builds (sched, maprt, cut, blk6 ...).
+# Prints nothing on success; the binary is $WORKDIR/bin/vcheck-<variant>.
 set -euo pipefail
 VERIF="$(cd "$(dirname "$0")/.." && pwd)"
-export GOFLAGS=-mod=mod GOPROXY=off GOSUMDB=off GOTOOLCHAIN=local
+. "$VERIF/bin/env.sh"
 variant="${1:-plain}"
-mkdir -p "$VERIF/.work/bin" "$VERIF/.work/overlay"
+mkdir -p "$WORKDIR/bin" "$WORKDIR/overlay"
+# per-tree module file: same requirements, replace directive pointing at the tree under test
+sed "s#=> /repo#=> $REPO#" "$VERIF/harness/go.mod" > "$WORKDIR/go.mod.tmp.$$"
+mv "$WORKDIR/go.mod.tmp.$$" "$WORKDIR/go.mod"
+(cat "$REPO/go.sum" "$VERIF/harness/go.sum.extra" 2>/dev/null || true) | sort -u > "$WORKDIR/go.sum.tmp.$$"
+mv "$WORKDIR/go.sum.tmp.$$" "$WORKDIR/go.sum"
+export MODFLAG="-modfile=$WORKDIR/go.mod"
 cd "$VERIF/harness"
-cp /repo/go.sum go.sum 2>/dev/null || true
-out="$VERIF/.work/bin/vcheck-$variant"
+out="$WORKDIR/bin/vcheck-$variant"
 case "$variant" in
   plain)
-    go build -o "$out" ./cmd/vcheck ;;
+    go build $MODFLAG -o "$out" ./cmd/vcheck ;;
   *)
     if [ -x "$VERIF/bin/build-$variant.sh" ]; then
       "$VERIF/bin/build-$variant.sh" "$out"
